@@ -211,6 +211,7 @@ theorem countShapeOKV_batchTF (op : TOp) (cur : SVal) (other : Option SVal) :
         | some (.nested []) => ffResult d (some []) axes
         | some (.nested _) => Val.err .dispatch
         | some (.flat g) => ffResult d (some g) axes
+        | some .raises => Val.err .dispatch
         | none => ffResult d none axes) := by
     intro grid axes d
     cases grid with
@@ -218,6 +219,7 @@ theorem countShapeOKV_batchTF (op : TOp) (cur : SVal) (other : Option SVal) :
     | some g =>
       cases g with
       | flat g => exact countShapeOKV_ffResult _ _ _
+      | raises => exact countShapeOKV_err _
       | nested g =>
         cases g with
         | nil => exact countShapeOKV_ffResult _ _ _
@@ -245,6 +247,7 @@ theorem countShapeOKV_batchTF (op : TOp) (cur : SVal) (other : Option SVal) :
         | some g =>
           cases g with
           | flat g => exact countShapeOKV_ibResult d (some g)
+          | raises => exact countShapeOKV_err _
           | nested g => exact countShapeOKV_err _
   | ts ds =>
     simp only []
@@ -271,6 +274,7 @@ theorem countShapeOKV_batchTF (op : TOp) (cur : SVal) (other : Option SVal) :
           | some g =>
             cases g with
             | flat g => exact countShapeOKV_err _
+            | raises => exact countShapeOKV_err _
             | nested g =>
               simp only []
               apply countShapeOKV_ite _ _ _ (countShapeOKV_err _)
